@@ -123,6 +123,9 @@ elif name == 'N1_null_check_before_exchange':
     if (atomic_exchange(pending, 0) == 0)
       continue;
 ''')
+elif name == 'B1_busy_as_flag':
+    rep('  atomic_fetch_add(busy, 1);\n', '  atomic_store(busy, 1);\n')
+    rep('  atomic_fetch_add(busy, -1);\n', '  atomic_store(busy, 0);\n')
 elif name == 'R1_refactor':
     rep('  atomic_fetch_add(busy, -1);\n', '  atomic_fetch_sub(busy, 1);\n')
     rep('  uv__queue_remove(&handle->queue);\n  uv__handle_stop(handle);', '  uv__handle_stop(handle);\n  uv__queue_remove(&handle->queue);')
